@@ -38,6 +38,7 @@ int* const vg_cptr = &vg_data;               /* const pointer to a global (reloc
 static long* vs_ptr = &vs_bigdata[100];      /* initialised pointer into a global array */
 static __thread int vt_tls[4];               /* thread-local, zero */
 static __thread int vt_tls_init = 99;        /* thread-local, initialised */
+#define NOPS 18
 #define SB_WORDS 1024
 #define BIG_WORDS 18000 /* 72000 bytes: above the default smpi/send-is-detached-thresh */
 unsigned vg_sbuf[SB_WORDS]; /* global MPI send buffer */
@@ -345,17 +346,18 @@ int main(int argc, char** argv)
   unsigned* scratch = malloc(sizeof(unsigned) * SB_WORDS);
   MPI_Op xop;
   MPI_Op_create(xor_op, 1, &xop);
-  MPI_Win win;
+  MPI_Win win, win2;
+  MPI_Win_create(vg_sbuf, sizeof vg_sbuf, sizeof(unsigned), MPI_INFO_NULL, MPI_COMM_WORLD, &win2);
   MPI_Win_create(vg_rbuf, sizeof vg_rbuf, sizeof(unsigned), MPI_INFO_NULL, MPI_COMM_WORLD, &win);
   if (rank == 0)
     printf("PLAN np=%d steps=%d mode=%s\n", np, nsteps, S.mode);
-  int opcount[17];
-  const char* opname[17];
+  int opcount[NOPS];
+  const char* opname[NOPS];
   memset(opcount, 0, sizeof opcount);
   memset(opname, 0, sizeof opname);
   for (int step = 0; step < nsteps; step++) {
     S.step = step;
-    int op = rnd(&S) % 17;
+    int op = rnd(&S) % NOPS;
     int n  = 1 + rnd(&S) % SB_WORDS; /* words */
     int root = rnd(&S) % np;
     /* (1) rank-specific writes: own stream derived from (seed, rank, step) */
@@ -518,6 +520,15 @@ int main(int argc, char** argv)
         expect_words(&S, c_rb, 0, n, from, step, c_sb, 0);
         break;
       }
+      case 16: { /* one-sided: every rank gets the previous rank's global send buffer into its own global receive buffer */
+        S.op = g_op_sig = "win-fence-get";
+        int from = (rank + np - 1) % np;
+        MPI_Win_fence(0, win2);
+        MPI_Get(vg_rbuf, n, MPI_UNSIGNED, from, 0, n, MPI_UNSIGNED, win2);
+        MPI_Win_fence(0, win2);
+        expect_words(&S, c_rb, 0, n, from, step, c_sb, 0);
+        break;
+      }
       default: { /* synchronous send of the big global buffer between (2k, 2k+1), alternating direction */
         S.op = g_op_sig = "ssend-recv-big";
         int peer = rank ^ 1;
@@ -544,14 +555,18 @@ int main(int argc, char** argv)
     /* (3) every byte of every variable against the shadow */
     verify(&S);
   }
+  S.op = g_op_sig = "sleep-before-finalize";
+  sleep(1 + rank % 3);
+  verify(&S);
   S.op = g_op_sig = "finalize";
   MPI_Op_free(&xop);
   MPI_Win_free(&win);
+  MPI_Win_free(&win2);
   MPI_Barrier(MPI_COMM_WORLD);
   verify(&S);
   if (rank == 0) {
     printf("OPS");
-    for (int o = 0; o < 17; o++)
+    for (int o = 0; o < NOPS; o++)
       if (opname[o])
         printf(" %s=%d", opname[o], opcount[o]);
     printf("\n");
